@@ -71,6 +71,59 @@ def page_scenarios(tier, seed):
     return out
 
 
+def vacuum_page_scenarios(tier, seed):
+    """histories large enough for a node table of several pages (also relocated), B-trees of depth > 1, blob chains and a
+    vector index, vacuumed while closed; PagesTrace compares everything read back afterwards (reported under C28)"""
+    N = lambda n, **kw: dict({"op": "nodes", "n": n, "label": "A"}, **kw)
+    C, R, V = {"op": "compact"}, {"op": "reopen"}, {"op": "vacuum"}
+    E = lambda n: {"op": "edges", "n": n, "from": 0, "stride": 7}
+    O = lambda st, *probes: dict(st, observe=True, probes=list(probes) or [1])
+    B = lambda n, size: {"op": "blobs", "n": n, "from": 3, "size": size}
+    VEC = lambda n: {"op": "vectors", "n": n, "from": 0, "dim": 4}
+    out = [
+        {"id": "vac/two-pages-no-compaction", "steps": [N(600), E(100), O(V, 1, 600), N(3), O(R, 1, 603)]},
+        {"id": "vac/relocated-table", "steps": [N(300), E(50), C, N(300), E(80), O(V, 1, 600), N(3), C, O(R, 603)]},
+        {"id": "vac/exactly-two-pages", "steps": [N(1024), E(200), C, O(V, 1, 1024), N(1), O(R, 1025)]},
+        {"id": "vac/everything", "steps": [N(700), {"op": "index", "label": "A", "field": "p"}, E(300), B(6, 20000), VEC(60), C, N(450), VEC(30), E(100), C,
+                                           O(V, 1, 700, 1150), {"op": "search"}, N(5), B(2, 9000), C, O(R, 1, 1155)]},
+    ]
+    if tier == "thorough":
+        rng = random.Random(seed * 31 + 28)
+        for k in range(8):
+            steps, total = [], 0
+            for _ in range(rng.randint(3, 7)):
+                n = rng.choice([90, 300, 511, 513, 700])
+                steps += [N(n), E(rng.choice([20, 150]))]
+                total += n
+                steps.append(rng.choice([C, R, B(3, rng.choice([300, 9000])), VEC(20), C]))
+            steps += [O(V, 1, total), N(2), O(R, 1, total + 2)]
+            out.append({"id": "vac/gen%d" % k, "steps": steps})
+    return out
+
+
+def pages_family(tag, scenarios, tier, seed):
+    cd = cache_dir("pages-" + tag, tier, seed)
+    os.makedirs(cd, exist_ok=True)
+    res_p = os.path.join(cd, "result.json")
+    if os.path.exists(res_p):
+        return json.load(open(res_p))
+    ip, tp = os.path.join(cd, "scenarios.ndjson"), os.path.join(cd, "trace.ndjson")
+    vlib.write_ndjson(ip, scenarios)
+    stats = vlib.nvx(["pages", "--in", ip, "--out", tp, "--scratch", os.path.join(cd, "scratch")], timeout=7200)
+    shutil.rmtree(os.path.join(cd, "scratch"), ignore_errors=True)
+    findings, info = vlib.tlc_trace("PagesTrace", tp, "pages-%s-%s" % (tag, tier), timeout=7200)
+    ids, cur = {}, None
+    for i, l in enumerate(open(tp), 1):
+        if '"ev":"reset"' in l[:40]:
+            cur = json.loads(l).get("id")
+        ids[i] = cur
+    for f in findings:
+        f["id"] = ids.get(f.get("at"))
+    saved = {"stats": stats, "findings": findings, "info": info}
+    json.dump(saved, open(res_p, "w"))
+    return saved
+
+
 @reg("C18")
 def c18(tier, seed, replay):
     t0 = time.time()
